@@ -335,7 +335,23 @@ def strat_closed(draw):
     if draw(st.integers(0, 5)) == 0:
         j = draw(st.integers(0, n - 1))
         d["p"][j] = _r6(d["p"][j] * draw(_lg(1e-8, 1e-2)))
+    # how the partial pressures are handed over: float array (usual), or integral values as python ints / integer arrays
+    d["ptype"] = draw(st.sampled_from(["float_array"] * 4 + ["float_list", "int_list", "int_tuple", "int_array"]))
+    if d["ptype"].startswith("int"):
+        d["p"] = [draw(st.integers(1, 30)) for _ in range(n)]
     return d
+
+
+def _as_ptype(p, ptype):
+    if ptype == "int_list":
+        return [int(v) for v in p]
+    if ptype == "int_tuple":
+        return tuple(int(v) for v in p)
+    if ptype == "int_array":
+        return np.array([int(v) for v in p], dtype=np.int64)
+    if ptype == "float_list":
+        return [float(v) for v in p]
+    return np.array(p, dtype=float)
 
 
 def check_closed(desc, ctx):
@@ -359,7 +375,9 @@ def check_closed(desc, ctx):
     ctx.label(desc["form"], f"n={n}", "guess:" + (desc["guess"]["mode"] if desc["guess"] else "default"))
     ctx.label("trace" if xw.min() < TRACE else "no_trace")
     guess = make_guess(desc["guess"], {"x": xw}, n)
-    l = call(pgiast.iast_point, ctx, isos, np.array(desc["p"]), warningoff=True, adsorbed_mole_fraction_guess=guess)
+    ctx.label("ptype:" + desc.get("ptype", "float_array"))
+    l = call(pgiast.iast_point, ctx, isos, _as_ptype(desc["p"], desc.get("ptype", "float_array")), warningoff=True,
+             adsorbed_mole_fraction_guess=guess)
     l = np.asarray(l, dtype=float)
     if not np.all(np.isfinite(l)) or np.any(l <= 0):
         raise Violation(f"{desc['form']} mixture K={desc['K']} p={desc['p']}: returned loadings {_fmt(l)}",
